@@ -185,7 +185,8 @@ def check_handover(ctx, cfg):
                     continue
                 p = ("P", p[1], p[2], cap) if p[0] == "P" else p
                 dst = {"k": "slice", "t": dst}
-            srcs = [c for c in a.calls if (c.fn.endswith("::into_raw") and "Box::<T" in c.fn) and c.ret[0] == "P" and p[0] == "P" and c.ret[1] == p[1] and a.dominates(c.bb, f.bb)]
+            # Box::leak gives the block up exactly like Box::into_raw (as a reference instead of a raw pointer)
+            srcs = [c for c in a.calls if ((c.fn.endswith("::into_raw") or c.fn.endswith("::leak")) and "Box::<T" in c.fn) and c.ret[0] == "P" and p[0] == "P" and c.ret[1] == p[1] and a.dominates(c.bb, f.bb)]
             if not srcs:
                 raw = [c for c in a.calls if c.fn in ("alloc::alloc::alloc", "alloc::alloc::alloc_zeroed") and a.dominates(c.bb, f.bb) or (c.fn in ("alloc::alloc::alloc", "alloc::alloc::alloc_zeroed") and a.reaches(c.bb, f.bb))]
                 if raw and raw[0].args[0][0] == "V" and raw[0].args[0][1] == "layout":
